@@ -3,7 +3,7 @@
 from harness import common, gens, pattern
 from harness.props import C02
 
-EXTRA_OBLIGATION_FILES = ("Props/C05_kits.v", "Props/C05_src.v", "Props/C04_structure_src.v",)
+EXTRA_OBLIGATION_FILES = ("Props/C05_kits.v", "Props/C05_src.v", "Props/C04_structure_src.v", "Props/C04_texts.v",)
 LEVEL_NOTE = ("Theorem for every pair (part pattern, generic pattern) of the common shape with the part's overhang atoms "
               "refining the generic ones, and every record with at most one occurrence of the generic structure: part "
               "valid iff generic valid and the overhangs it reports match the signature; by reflection over the kit table "
